@@ -47,8 +47,20 @@ def wf_facts(p):
 
 
 def same(a, b):
-    return (tuple(a.shape) == tuple(b.shape) and a.dtype == b.dtype and a.names == b.names
-            and core.canon_elements(a) == core.canon_elements(b))
+    return not differs(a, b)
+
+
+def differs(a, b):
+    """'' if equal, else which observable differs (shape / dtype / names / values)"""
+    if tuple(a.shape) != tuple(b.shape):
+        return f"shape {tuple(a.shape)} vs {tuple(b.shape)}"
+    if a.dtype != b.dtype:
+        return f"dtype {a.dtype} vs {b.dtype}"
+    if a.names != b.names:
+        return f"names {a.names} vs {b.names}"
+    if core.canon_elements(a) != core.canon_elements(b):
+        return "values"
+    return ""
 
 
 def rebuild_facts(p):
@@ -59,7 +71,10 @@ def rebuild_facts(p):
             bad.append("rebuild from (exponents, coefficients, names) differs")
         q = numpoly.polynomial(numpy.asarray(p.values), names=p.names)
         if not same(p, q):
-            bad.append("rebuild from the raw structured view differs")
+            bad.append("rebuild from the raw structured view differs: " + differs(p, q)
+                       + f" | p: exps={p.exponents.tolist()} coefs={[numpy.asarray(c).tolist() for c in p.coefficients]} keys={p.keys.tolist() if hasattr(p.keys, 'tolist') else p.keys}"
+                       + f" flags={p.flags['C_CONTIGUOUS']},{p.flags['F_CONTIGUOUS']} strides={p.strides}"
+                       + f" | q: exps={q.exponents.tolist()} coefs={[numpy.asarray(c).tolist() for c in q.coefficients]}")
         if p.size:
             q = numpoly.polynomial(p.todict(), names=p.names)
             if not (core.canon_elements(p) == core.canon_elements(q) and tuple(q.shape) == tuple(p.shape) and q.names == p.names):
